@@ -86,7 +86,7 @@ def est_horizon(spec: Dict[str, Any]) -> float:
             if isinstance(tmo, (int, float)) and tmo > 0 and (never or d_ > tmo):
                 d_ = float(tmo)  # the body is cut by its timeout label ...
                 d_ += sum(x for x in b.get("cleanup", []) if isinstance(x, (int, float)))  # ... and winds down
-            tot += d_
+            tot += d_ + float(b.get("sync_hold") or 0)
         tot += 0.5 + hook_lat  # hook / ack / backend latencies
     return last + tot + 0.4 * (len(spec.get("msgs", [])) + 2) + 20.0
 
@@ -251,6 +251,8 @@ def gen_c01_spec(rng: random.Random, maxn: int = 40) -> Dict[str, Any]:
                              "beh": gen_beh(rng, ["ok", "ok", "raise", "noresult"])}
         if m["task"] == "t_sync":
             m["beh"]["dur"] = []
+            if rng.random() < 0.25:
+                m["beh"]["sync_hold"] = rng.choice([0.05, 0.3, 1.0])  # the function holds its thread: sync executions overlap
         if kind == "valid" and rng.random() < 0.15:
             m["partial_types"] = True
             m["labels"] = {"origin": "cron", "trace": "t-1"}
@@ -263,6 +265,7 @@ def gen_c01_spec(rng: random.Random, maxn: int = 40) -> Dict[str, Any]:
                 m["args"] = [rng.choice([5, "x", {"a": 1}])]
         msgs.append(m)
     spec: Dict[str, Any] = {"cfg": gen_cfg(rng), "msgs": msgs}
+    spec["cfg"]["threads"] = len(msgs) + 2
     r = rng.random()
     if r < 0.12:
         # a task registered while the worker is running (dynamic tasks): messages naming it are unknown before
@@ -502,6 +505,13 @@ def gen_c02_spec(rng: random.Random) -> Dict[str, Any]:
         "msgs": msgs, "end_stream": True,
         "backend": {"lat": rng.choice([0, 0, "y", 0.01, 0.1]), "fail": fail},
     }
+    r_b = rng.random()
+    if r_b < 0.12:
+        spec["backend"]["kind"] = "dummy_sub"
+    elif r_b < 0.24:
+        spec["backend"]["late"] = True
+    if rng.random() < 0.2:
+        spec["cfg"]["N"] = rng.randint(1, max(1, n))  # --max-tasks-per-child: the worker recycles after N messages
     if rng.random() < 0.3:
         spec["mws"] = [{"post_execute": {"async": True, "lat": rng.choice(["y", 0.02])},
                         "post_save": {"async": rng.random() < 0.5, "lat": 0.01}}]
